@@ -139,7 +139,9 @@ func areas(thorough bool) []*guard.Area {
 					seen[k] = true
 				}
 				for ti, t := range instants {
-					c.Call("cron.Schedule.Next", func() string { return fmt.Sprintf("opts=%s spec=%q t=#%d(%s)", name, spec, ti, t.Format(time.RFC3339Nano)) }, func() {
+					c.Call("cron.Schedule.Next", func() string {
+						return fmt.Sprintf("opts=%s spec=%q t=#%d(%s)", name, spec, ti, t.Format(time.RFC3339Nano))
+					}, func() {
 						_ = sched.Next(t)
 					})
 					c.NonTrivial(1)
